@@ -108,7 +108,45 @@ func (h *H) c24GenSnaps(n int, distinctTimes bool) []*c24Snap {
 	return l
 }
 
+// c24Repeat returns l with one or two of its entries repeated at random positions (an option
+// given twice on the command line, backup targets that normalise to the same path, …).
+func (h *H) c24Repeat(l []string) []string {
+	if len(l) == 0 {
+		return l
+	}
+	n := 1 + h.Intn(2)
+	for i := 0; i < n; i++ {
+		e := l[h.Intn(len(l))]
+		p := h.Intn(len(l) + 1)
+		l = append(l[:p:p], append([]string{e}, l[p:]...)...)
+	}
+	return l
+}
+
 func (h *H) c24Filter(rawPaths bool) *data.SnapshotFilter {
+	f := h.c24FilterNoDup(rawPaths)
+	// a fixed share of the filters repeats entries in every list: hosts, paths, whole tag lists
+	// and tags inside a tag list
+	if h.Intn(4) == 0 {
+		f.Hosts = h.c24Repeat(f.Hosts)
+		f.Paths = h.c24Repeat(f.Paths)
+		if rawPaths && len(f.Paths) > 0 && h.Intn(2) == 0 {
+			// the same path in another spelling (equal after filepath.Clean)
+			f.Paths = append(f.Paths, f.Paths[h.Intn(len(f.Paths))]+"/.")
+		}
+		for i := range f.Tags {
+			if h.Intn(2) == 0 {
+				f.Tags[i] = data.TagList(h.c24Repeat([]string(f.Tags[i])))
+			}
+		}
+		if len(f.Tags) > 0 && h.Intn(2) == 0 {
+			f.Tags = append(f.Tags, append(data.TagList(nil), f.Tags[h.Intn(len(f.Tags))]...))
+		}
+	}
+	return f
+}
+
+func (h *H) c24FilterNoDup(rawPaths bool) *data.SnapshotFilter {
 	f := &data.SnapshotFilter{}
 	if h.Intn(3) == 0 {
 		f.Hosts = h.c24Subset(c24Hosts, 2, false)
